@@ -41,6 +41,12 @@ def cases(tier, seed):
                     circ = dict(tree=tree, prod=prod, style=style, nary=nary, kin=k, ksum=k, kout=2 if outputs == "single" else 1, inp=inp,
                                 numbering="h8" if inp in ("emb", "gau") else "id", outputs=outputs,
                                 sumw="softmax" if inp == "cat-softmax" else "dense")
+                    if inp in ("emb", "cat-logits") and outputs == "single":
+                        # some layers frozen (non-learnable tensors of the same shape as learnable ones)
+                        for frozen in ("even", "odd"):
+                            yield {"circ": circ, "vk": "monotone", "frozen": frozen}
+                    if inp in ("emb", "poly2") and outputs == "single":
+                        yield {"circ": dict(circ, cplx=True), "vk": "complex"}
                     for vk in ["generic", "monotone", "zeros", "mzeros"]:
                         if vk in ("zeros", "mzeros") and inp in ("gau", "gau-lp", "bin-probs", "bin-logits", "cat-logits", "cat-softmax"):
                             if inp != "cat-logits":
@@ -91,6 +97,11 @@ def run_case(case):
     spec = pools.spec_from(case["circ"])
     if spec is None:
         return {"status": "skip", "nontrivial": False}
+    if case.get("frozen"):
+        par = [i for i, l in enumerate(spec["layers"]) if l["t"] not in ("had", "kro")]
+        for j, i in enumerate(par):
+            if (j % 2 == 0) == (case["frozen"] == "even"):
+                spec["layers"][i] = dict(spec["layers"][i], frozen=True)
     sc, roles = cdl.build_circuit(spec)
     vk = case["vk"]
     val = cdl.valuation(roles, vk, seed)
@@ -107,7 +118,9 @@ def run_case(case):
     positive = vk in ("monotone", "mzeros") and bool(np.all(expected.real >= 0))
     strictly_pos = positive and bool(np.all(expected.real > 0))
     semirings = ["sum-product", "complex-lse-sum"] + (["lse-sum"] if strictly_pos or (vk == "mzeros" and positive) else [])
-    do_fd = vk in ("generic", "monotone")
+    if vk == "complex":
+        semirings = ["complex-lse-sum"]
+    do_fd = vk in ("generic", "monotone", "complex")
     viols = []
     counters = {"configs": 0, "fd_entries": 0, "finite_checks": 0}
     # ---- finite differences of the reference (independent of the configuration)
@@ -116,15 +129,20 @@ def run_case(case):
     if do_fd:
         h = 1e-6
         for i, t in enumerate(params):
-            g = np.zeros(t.shape)
-            base = np.array(val[t], dtype=np.float64)
+            if not t.learnable:
+                continue
+            is_c = np.iscomplexobj(val[t])
+            g = np.zeros(t.shape, dtype=np.complex128 if is_c else np.float64)
+            base = np.array(val[t], dtype=np.complex128 if is_c else np.float64)
             for idx in np.ndindex(*t.shape):
-                vp = dict(val)
-                a = base.copy(); a[idx] += h; vp[t] = a
-                vm = dict(val)
-                b = base.copy(); b[idx] -= h; vm[t] = b
-                g[idx] = (ref_functional(sc, vp, rows, coeff) - ref_functional(sc, vm, rows, coeff)) / (2 * h)
-                counters["fd_entries"] += 1
+                for unit in ([1.0, 1j] if is_c else [1.0]):
+                    vp = dict(val)
+                    a = base.copy(); a[idx] += h * unit; vp[t] = a
+                    vm = dict(val)
+                    b = base.copy(); b[idx] -= h * unit; vm[t] = b
+                    d = (ref_functional(sc, vp, rows, coeff) - ref_functional(sc, vm, rows, coeff)) / (2 * h)
+                    g[idx] += d * unit  # torch convention for a real objective: grad = dJ/dRe + i dJ/dIm
+                    counters["fd_entries"] += 1
             fd[i] = g
         if cont_vars:
             fdx = np.zeros((len(rows), nvars))
@@ -151,6 +169,10 @@ def run_case(case):
             per_cfg[(semiring, fold, optimize)] = (g, gx)
             scale = max(1.0, float(np.max(np.abs(expected))))
             for i, t in enumerate(params):
+                if not t.learnable:
+                    if g[i] is not None:
+                        viols.append({"sig": {"kind": "gradient-on-frozen-tensor", "role": roles[t], **cfg}, "detail": f"non-learnable tensor {i} ({roles[t]}) accumulates a gradient"})
+                    continue
                 if g[i] is None:
                     viols.append({"sig": {"kind": "no-gradient", "role": roles[t], **cfg}, "detail": f"tensor {i} ({roles[t]}) received no gradient"})
                     continue
@@ -163,7 +185,7 @@ def run_case(case):
                 if do_fd:
                     ref_g = fd[i]
                     tol = 1e-5 * max(scale, float(np.max(np.abs(ref_g)))) + 1e-7
-                    if not np.all(np.abs(np.real(g[i]) - ref_g) <= tol):
+                    if not np.all(np.abs((g[i] if np.iscomplexobj(ref_g) else np.real(g[i])) - ref_g) <= tol):
                         viols.append({"sig": {"kind": "gradient-vs-finite-differences", "role": roles[t], **cfg},
                                       "detail": f"tensor {i} ({roles[t]}): autograd {np.real(g[i]).reshape(-1)[:6]} fd {ref_g.reshape(-1)[:6]}"})
             if do_fd and fdx is not None and gx is not None:
